@@ -545,3 +545,141 @@ package distuv
 //@ var mu float64, s float64, x float64, d float64
 //@ hyp s > 0 && d > 0
 //@ goal lsurv(mu, s, x) == 1 - lcdf(mu, s, x) && lcdf(mu, s, mu + d) + lcdf(mu, s, mu - d) == 1 && lcdf(mu, s, mu - d) == lsurv(mu, s, mu + d)
+
+// ---- Categorical --------------------------------------------------------------------
+//
+// Representation: weights (the weight vector) and heap, an implicit binary tree of the same
+// length in which "each element holds the sum of weights for the corresponding index, plus the
+// sum of its children's weights" (children of i at 2i+1, 2i+2); heap[0] is the total weight.
+//
+// catrep is the representation invariant, written from that comment: both slices have the
+// same positive length, and in exact arithmetic every weight is non-negative, every node is
+// its weight plus its children's nodes (cattree) and the total heap[0] is positive.
+//
+// The requires of the methods are this invariant only (plus: the two private slices are distinct
+// allocations, never aliased with an argument); NewCategorical establishes it, ReweightAll and
+// Reweight preserve it (so it holds after every history of reweights), in exact arithmetic.
+// Documented panics are stated as "a normal return implies the documented argument condition"
+// (option may-panic: negative weight, length mismatch, non-positive total cannot return normally);
+// "no panic on valid arguments" is not stated (the float total is not expressible in the IEEE pass).
+// Law clauses ([real]): Prob(i) == w[i]/total, 0 off the support, Prob >= 0; CDF(x) ==
+// wsum(w, m+1)/total for m <= x < m+1 (and for all x >= len-1 with m = len-1), 0 below 0, >= 0,
+// CDF(m) == wsum(w, m)/total + w[m]/total (Prob sums to the CDF; with w[m] >= 0 this is the step
+// of monotonicity); Mean == sum i*w[i] / total; total is heap[0].
+// NOT PROVED (engine: no induction, only unfolding): heap[0] == wsum(w, len) (the tree total is a
+// reordering of the linear sum; needs a point-update lemma for sums), hence "CDF == 1 at and above
+// len-1" is stated under that hypothesis only, and Prob <= 1, CDF <= 1, CDF(x) <= CDF(y) for
+// arbitrary x <= y (monotonicity of partial sums of non-negative terms) are not stated.
+// FINDING (NaN): CDF(NaN) == 1 (the guard x < float64(i) is false for NaN, all weights are summed);
+// by the law it is NaN (stat.CDF returns NaN there). Prob(NaN) == 0 (proved), LogProb(NaN) == -Inf.
+// FINDING: NewCategorical(nil, nil) / an empty weight vector dies with "runtime error: index out
+// of range [0] with length 0" in reset instead of "sum of the weights non-positive"; narrowed by
+// requires len(w) >= 1. Reweight(idx out of range) is a runtime index panic (undocumented; narrowed
+// by requires 0 <= idx < Len).
+// FINDING (NaN/Inf weights pass validation, v < 0 and total <= 0 are false for NaN):
+// NewCategorical({NaN,1}) gives Prob = CDF = Mean = NaN; {+Inf,1}: Prob(0) = NaN, CDF(1) = NaN;
+// Reweight(0, NaN) is accepted. The ensures say !(w < 0), !(total <= 0), not w >= 0.
+// FINDING (rounding, outside [real]): Reweight updates the totals by differences, so they drift:
+// {1,1,100}: Reweight(0,1e17); Reweight(0,1) leaves heap[0] = 96: Prob(2) = 1.0416, CDF(2) = 1.0625;
+// {1,1}: Reweight(0,1e17); Reweight(0,3) panics "sum of the weights non-positive" with weights {3,1}.
+// CDF(len-1) of {0.1,...,0.7} is 0.99999999999999989 (linear sum / heap-order sum).
+// Observation: the "sum non-positive" panic of Reweight comes after the stores ({1,0}: Reweight(0,0)
+// panics and leaves Prob(0) = NaN). Rand: OUTSIDE-SUBSET (math/rand/v2.Float64 has no contract/body).
+//@ spec cattree(w []float64, h []float64) bool = forall(k, 0, len(w), h[k] == w[k] + ite(2*k+2 < len(w), h[2*k+2], 0.0) + ite(2*k+1 < len(w), h[2*k+1], 0.0))
+//@ spec catnonneg(w []float64) bool = forall(k, 0, len(w), w[k] >= 0)
+//@ spec catrep(w []float64, h []float64) bool = catnonneg(w) && cattree(w, h) && h[0] > 0
+// wsum: sum of the first n weights; wmom: sum of i*w[i] over the first n weights.
+//@ spec rec wsum(w []float64, n int) float64 reads w[0..n] decreases n = ite(n <= 0, 0, wsum(w, n-1) + w[n-1])
+//@ spec rec wmom(w []float64, n int) float64 reads w[0..n] decreases n = ite(n <= 0, 0, wmom(w, n-1) + float64(n-1)*w[n-1])
+
+//@ func Categorical.Len props: C11
+//@ writes nothing
+//@ ensures result == len(c.weights)
+
+//@ func Categorical.reset props: C11
+//@ floats: ieee
+//@ option may-panic
+//@ requires len(c.heap) == len(c.weights) && len(c.weights) >= 1 && c.heap.rid != c.weights.rid
+//@ writes c.heap[k] for k in 0..len(c.heap)
+//@ ensures !(c.heap[0] <= 0)
+//@ ensures [real] catnonneg(c.weights) ==> catrep(c.weights, c.heap)
+//@ loop 1: invariant [real] forall(k, 0, len(c.weights), c.heap[k] == c.weights[k] + ite(2*k+2 < len(c.weights) && 2*k+2 > i, c.heap[2*k+2], 0.0) + ite(2*k+1 < len(c.weights) && 2*k+1 > i, c.heap[2*k+1], 0.0))
+
+//@ func Categorical.Prob props: C11
+//@ floats: ieee
+//@ requires len(c.heap) == len(c.weights) && len(c.weights) >= 1 && c.heap.rid != c.weights.rid
+//@ requires [real] catrep(c.weights, c.heap)
+//@ writes nothing
+//@ ensures isNaN(x) ==> same(result, 0.0)
+//@ ensures [real] result >= 0
+//@ ensures [real] forall(i, 0, len(c.weights), x == float64(i) ==> result == c.weights[i] / c.heap[0])
+//@ ensures [real] forall(i, 0, len(c.weights), x != float64(i)) ==> result == 0
+
+//@ func Categorical.CDF props: C11
+//@ requires len(c.heap) == len(c.weights) && len(c.weights) >= 1 && c.heap.rid != c.weights.rid
+//@ requires [real] catrep(c.weights, c.heap)
+//@ writes nothing
+//@ ensures [real] x < 0 ==> result == 0
+//@ ensures [real] result >= 0
+//@ ensures [real] forall(m, 0, len(c.weights), float64(m) <= x && (x < float64(m+1) || m == len(c.weights)-1) ==> result == wsum(c.weights, m+1) / c.heap[0])
+//@ ensures [real] forall(m, 0, len(c.weights), x == float64(m) ==> result == wsum(c.weights, m) / c.heap[0] + c.weights[m] / c.heap[0])
+//@ ensures [real] c.heap[0] == wsum(c.weights, len(c.weights)) && x >= float64(len(c.weights)-1) ==> result == 1
+//@ loop 1: invariant [real] cdf == wsum(c.weights, it) && cdf >= 0
+//@ invariant [real] it > 0 ==> float64(it-1) <= x
+
+//@ func Categorical.Mean props: C11
+//@ requires len(c.heap) == len(c.weights) && len(c.weights) >= 1 && c.heap.rid != c.weights.rid
+//@ requires [real] catrep(c.weights, c.heap)
+//@ writes nothing
+//@ ensures [real] result == wmom(c.weights, len(c.weights)) / c.heap[0]
+//@ ensures [real] result >= 0
+//@ loop 1: invariant [real] mean == wmom(c.weights, it) && mean >= 0
+
+//@ func Categorical.LogProb props: C11
+//@ requires len(c.heap) == len(c.weights) && len(c.weights) >= 1 && c.heap.rid != c.weights.rid
+//@ requires [real] catrep(c.weights, c.heap)
+//@ writes nothing
+//@ ensures [real] forall(i, 0, len(c.weights), x == float64(i) ==> result == math.Log(c.weights[i] / c.heap[0]))
+//@ ensures [real] forall(i, 0, len(c.weights), x != float64(i)) ==> result == math.Log(0.0)
+
+//@ func Categorical.ReweightAll props: C11
+//@ floats: ieee
+//@ option may-panic
+//@ requires len(c.heap) == len(c.weights) && len(c.weights) >= 1 && c.heap.rid != c.weights.rid && w.rid != c.heap.rid && w.rid != c.weights.rid
+//@ writes c.weights[k] for k in 0..len(c.weights) ; c.heap[k] for k in 0..len(c.heap)
+//@ ensures len(w) == len(c.weights)
+//@ ensures forall(k, 0, len(w), !(w[k] < 0)) && !(c.heap[0] <= 0)
+//@ ensures forall(k, 0, len(w), same(c.weights[k], w[k]))
+//@ ensures [real] catrep(c.weights, c.heap)
+//@ loop 1: invariant forall(k, 0, it, !(w[k] < 0))
+//@ invariant [real] forall(k, 0, it, w[k] >= 0)
+
+//@ func NewCategorical props: C11
+//@ floats: ieee
+//@ option may-panic
+//@ requires len(w) >= 1
+//@ writes nothing
+//@ ensures len(result.weights) == len(w) && len(result.heap) == len(w) && result.heap.rid != result.weights.rid
+//@ ensures fresh(result.weights) && fresh(result.heap)
+//@ ensures forall(k, 0, len(w), !(w[k] < 0)) && !(result.heap[0] <= 0)
+//@ ensures forall(k, 0, len(w), same(result.weights[k], w[k]))
+//@ ensures [real] catrep(result.weights, result.heap)
+
+//@ func Categorical.Reweight props: C11
+//@ floats: ieee
+//@ option may-panic
+//@ requires len(c.heap) == len(c.weights) && len(c.weights) >= 1 && c.heap.rid != c.weights.rid
+//@ requires 0 <= idx && idx < len(c.weights)
+//@ requires [real] catrep(c.weights, c.heap)
+//@ writes c.weights[idx] ; c.heap[k] for k in 0..len(c.heap)
+//@ ensures !(w < 0) && !(c.heap[0] <= 0)
+//@ ensures same(c.weights[idx], w)
+//@ ensures forall(k, 0, len(c.weights), k != idx ==> same(c.weights[k], old(c.weights[k])))
+//@ ensures [real] catrep(c.weights, c.heap)
+//@ ensures [real] c.heap[0] == old(c.heap[0]) - old(c.weights[idx]) + w
+//@ loop 1: invariant 0 <= idx && idx <= old(idx)+1
+//@ invariant [real] catnonneg(c.weights)
+//@ invariant [real] forall(k, 0, len(c.weights), k != idx-1 ==> c.heap[k] == c.weights[k] + ite(2*k+2 < len(c.weights), c.heap[2*k+2], 0.0) + ite(2*k+1 < len(c.weights), c.heap[2*k+1], 0.0))
+//@ invariant [real] idx >= 1 ==> c.heap[idx-1] - w == c.weights[idx-1] + ite(2*idx < len(c.weights), c.heap[2*idx], 0.0) + ite(2*idx-1 < len(c.weights), c.heap[2*idx-1], 0.0)
+//@ invariant [real] w == old(c.weights[idx]) - old(w)
+//@ invariant [real] c.heap[0] == old(c.heap[0]) - ite(idx == 0, w, 0.0)
